@@ -13,6 +13,7 @@ import Drv.HbDrv
 import Drv.BcDrv
 import Drv.BdDrv
 import Drv.DagDrv
+import Drv.RnDrv
 
 /-- `hvdriver <domain>`: runs the line-protocol loop of one model family on stdin -/
 def main (args : List String) : IO UInt32 := do
@@ -32,4 +33,5 @@ def main (args : List String) : IO UInt32 := do
   | ["bc"] => BcDrv.main; return 0
   | "bd" :: rest => BdDrv.main rest; return 0
   | "dag" :: rest => DagDrv.main rest; return 0
+  | ["rn"] => RnDrv.main; return 0
   | _ => IO.eprintln "usage: hvdriver fu [fixed]|rb|pl|ts|mg|tk|ln|cd|idn|gs|td|hb"; return 2
